@@ -91,6 +91,13 @@ def check(run):
         ok = len(sup) == 1 and [norm(a) for a in sup[0].args] + ['%s=%s' % (k.arg, norm(k.value)) for k in sup[0].keywords] in (
             ['gs', 'ps'], ['gs', 'ps=ps'], ['gs=gs', 'ps=ps'])
         run.check(ok, 'R2.init', ini, sup[0] if sup else '__init__', 'the constructor must forward (gs, ps) to PauliList.__init__')
+    # constructors hand out fresh tableaux (a shared identity table would be corrupted by the first in-place embed / rotate)
+    for rel in (K.PY_S, K.TC_S):
+        for n in ('identity_map', 'zero_state', 'maximally_mixed_state', 'one_state', 'stabilizer_state', 'random_pauli_map', 'random_clifford_map', 'clifford_rotation_map'):
+            if repo.has_func(rel, n):
+                g = repo.func(rel, n)
+                effect.check_pure(run, eff, g)
+                effect.check_fresh_result(run, eff, g)
     # every rank-changing kernel call stores r
     for rel, q in ((K.PY_S, 'StabilizerState.measure'), (K.TC_S, 'StabilizerState.measure'), (K.PY_C, 'MeasureLayer.forward'),
                    (K.PY_S, 'stabilizer_state'), (K.TC_S, 'stabilizer_state'), (K.PY_S, 'StabilizerState.postselect')):
